@@ -63,6 +63,7 @@ def case(draw, tier):
         c["keyform"] = draw(st.sampled_from(["names", "indices", "single"]))
         c["recast_missing"] = draw(st.sampled_from([None, None, "NA", 0]))
         c["variables_given"] = draw(st.booleans())
+        c["samplesize"] = draw(st.sampled_from([None, None, "exact", "plus1"]))
     elif op in ("transpose", "flatten", "dicts", "columns"):
         cell = st.one_of(gen.scalar, gen.value)
         c["table"] = draw(gen.table(list(hdr), [cell] * nf, max_rows=maxrows, min_rows=1 if op == "dicts" else 0))
@@ -139,6 +140,11 @@ def check(case, ctx):
                 return fail("melt-count", len(molten) - 1, len(rows) * len(vidx))
             if op == "melt_recast" and vidx:
                 rkw = {} if case.get("recast_missing") is None else {"missing": case["recast_missing"]}
+                # the variables are discovered from a sample of the molten rows: melt emits them row by row, so the first
+                # len(vidx) molten rows name them all - a sample of exactly that size (or one more) must be enough
+                if case.get("samplesize") in ("exact", "plus1"):
+                    rkw["samplesize"] = len(vidx) + (1 if case["samplesize"] == "plus1" else 0)
+                    ctx.label("samplesize:" + case["samplesize"])
                 # every (key, variable) pair has exactly one value - None included - so `missing` must never be used
                 back = _T(etl.recast(molten, key=key if len(key) > 1 else key[0], **rkw))
                 vsorted = sorted(vidx, key=lambda i: hdr[i])
